@@ -25,7 +25,12 @@ void *nondet_ptr(void);
  * REACH: vacuity guard - a reachability witness, encoded as a deliberately false assertion that
  * MUST come back FAILED (the runner treats a "reach:" property that holds as a vacuous harness). */
 #define PROP(c, msg) __CPROVER_assert((c), msg)
+#ifdef VF_NO_REACH   /* fault-injection runs: the witnesses of the fault-free harness do not apply */
+#define REACH(c, msg) ((void)0)
+#else
 #define REACH(c, msg) __CPROVER_assert(!(c), "reach: " msg)
+#endif
+#define REACHF(c, msg) __CPROVER_assert(!(c), "reach: " msg)
 /* a bound of the encoding was exceeded: reported as a failed property "bound: ...", never a pass */
 #define VF_BOUND(c, msg) do { __CPROVER_assert((c), "bound: " msg); __CPROVER_assume(c); } while (0)
 
